@@ -48,4 +48,9 @@ TEXTS = {
         "level_text": "Exploration: 96k (quick) / 1.6M (thorough) generated cases over 39 compatible and 18 converting (source, destination) organisation pairs (interleaved, planar, packed, bit-aligned x 1-D traversable or not, sub-views, sub-sampled, flipped, transposed, padded rows) and 12 algorithms. After each library call the destination's entire guard-page buffer must be byte-identical to the buffer produced by the obvious loop, which decides both 'same result' and 'nothing else modified' (padding, neighbours, shared bits).",
         "level_note": "Trusted base: view(x,y) and single-pixel assignment (decided by C02, C03, C05, C08). Overlapping source/destination are not generated.",
     },
+    "C10": {
+        "technique": "model-based stateful command sequences (rapidcheck, whole history shrinks) with complete enumeration of injected allocation / element-constructor failures; allocator ledger, element live-set and value model as invariants after every command",
+        "level_text": "Fault enumeration: for every generated history (96k quick / 2.5M thorough over 7 image kinds x 4 allocator flavours incl. pmr) the run is repeated once per allocation and element-construction event with exactly that event failing, so every fault point of every explored history is covered. Invariants after each command: ledger (matching allocator, size, no double free), ownership of exactly one live block per non-empty image, element constructed/destroyed exactly once (image<Counted>), deep-value model, requested dimensions and row alignment after recreate, storage reuse; at the end nothing is live.",
+        "level_note": "Checking allocators and the Counted element are the harness's own; malloc under ASan backs them. Histories are bounded to 8 (14) commands over 4 slots.",
+    },
 }
